@@ -6,6 +6,7 @@
 #include "common.hh"
 #include "model.hh"
 #include <OpenVolumeMesh/Mesh/PolyhedralMesh.hh>
+#include <OpenVolumeMesh/Attribs/StatusAttrib.hh>
 #include <functional>
 #include <map>
 #include <memory>
@@ -24,7 +25,7 @@ struct PolyMesh : public GeometricPolyhedralMeshV3d {
 enum PrimType {
   P_ADD_VERTEX, P_ADD_N_VERTICES, P_ADD_EDGE, P_ADD_FACE_V, P_ADD_FACE_HE, P_ADD_CELL,
   P_SET_EDGE, P_SET_FACE, P_SET_CELL, P_DELETE, P_SWAP, P_GC, P_CLEAR,
-  P_EN_VBU, P_EN_EBU, P_EN_FBU, P_EN_DEFERRED, P_EN_FAST
+  P_EN_VBU, P_EN_EBU, P_EN_FBU, P_EN_DEFERRED, P_EN_FAST, P_STATUS_MARK, P_STATUS_GC
 };
 
 struct Prim {
@@ -40,6 +41,11 @@ struct Prim {
   int expect_existing = -1;                       // ADD_EDGE
   std::vector<std::pair<int, bool>> facev_edges;  // ADD_FACE_V: (edge uid, is_new)
   std::vector<int> closure_e, closure_f, closure_c;  // DELETE
+  // STATUS_GC: victims per kind (uids), handles passed for tracking (uid -1 = invalid handle)
+  std::vector<int> victims[4];
+  std::vector<int> tr_v, tr_c;
+  std::vector<HEu> tr_he;
+  std::vector<HFu> tr_hf;
   std::string render;
 };
 
@@ -51,6 +57,12 @@ struct Sut {
   bool deferred = true, fast = true, vbu = true, ebu = true, fbu = true;
   bool follow_bu = true;  // false: twin that keeps all bottom-up incidences enabled (C12)
   std::string name = "mesh";
+  std::unique_ptr<StatusAttrib> status;
+  std::vector<VertexHandle> res_v;     // tracked handles after StatusAttrib::garbage_collection
+  std::vector<HalfEdgeHandle> res_he;
+  std::vector<HalfFaceHandle> res_hf;
+  std::vector<CellHandle> res_c;
+  StatusAttrib &st() { if (!status) status.reset(new StatusAttrib(mesh)); return *status; }
   VertexHandle vh(int uid) const { return VertexHandle(lay.slot(KV, uid)); }
   EdgeHandle eh(int uid) const { return EdgeHandle(lay.slot(KE, uid)); }
   FaceHandle fh(int uid) const { return FaceHandle(lay.slot(KF, uid)); }
@@ -66,7 +78,7 @@ enum OpCode {
   O_DEL_V, O_DEL_E, O_DEL_F, O_DEL_C,
   O_SWAP_V, O_SWAP_E, O_SWAP_F, O_SWAP_C,
   O_GC, O_CLEAR, O_EN_VBU, O_EN_EBU, O_EN_FBU, O_EN_DEFERRED, O_EN_FAST,
-  O_PROP_CREATE, O_PROP_WRITE, O_PROP_DROP, O_QUERY,
+  O_PROP_CREATE, O_PROP_WRITE, O_PROP_DROP, O_QUERY, O_STATUS_MARK, O_STATUS_GC,
   O_COUNT_
 };
 
@@ -79,7 +91,8 @@ inline const std::vector<OpInfo> &poly_optable() {
       {"swap_vertices", 2}, {"swap_edges", 2}, {"swap_faces", 2}, {"swap_cells", 2},
       {"collect_garbage", 0}, {"clear", 1}, {"enable_vbu", 1}, {"enable_ebu", 1}, {"enable_fbu", 1},
       {"enable_deferred", 1}, {"enable_fast", 1},
-      {"prop_create", 4}, {"prop_write", 3}, {"prop_drop", 1}, {"query", 5}};
+      {"prop_create", 4}, {"prop_write", 3}, {"prop_drop", 1}, {"query", 5},
+      {"status_mark_deleted", 2}, {"status_garbage_collection", 5}};
   return t;
 }
 
@@ -103,12 +116,16 @@ struct Interp {
   Logical L;
   std::vector<std::unique_ptr<Sut>> suts;
   std::map<int, Vec3d> pos;  // expected position per live vertex uid
+  std::set<int> marks[4];    // status-marked (deleted) live entities per kind
   Stats *st = nullptr;
   bool allow_set = true;       // set_edge/set_face/set_cell allowed in this target
   bool allow_selfloop = true;
   bool dedup_safe = true;      // skip add_edge(dedupe) when several parallel live edges exist
   size_t max_vertices = 40;
 
+  // when a twin mesh (suts[0], all bottom-up incidences enabled) runs alongside, failures that only the
+  // second mesh shows are attributed to this property (C12)
+  std::string twin_owner;
   // first failure
   std::string fail, fail_owner;
   std::string cur_annot;
@@ -118,12 +135,20 @@ struct Interp {
   // called right before a primitive is executed
   std::function<void(const Prim &)> before_step;
   // structural mismatch reporting: owner property by primitive type
+  std::string owner_for(const Sut &s, const std::string &owner) const {
+    if (!twin_owner.empty() && suts.size() > 1 && &s != suts[0].get()) return twin_owner;
+    return owner;
+  }
+  static const char *owner_of(const Prim &p) {
+    if (p.t == P_EN_DEFERRED && !p.flag) return "C04";
+    return owner_of(p.t);
+  }
   static const char *owner_of(PrimType t) {
     switch (t) {
     case P_ADD_VERTEX: case P_ADD_N_VERTICES: case P_ADD_EDGE: case P_ADD_FACE_V: case P_ADD_FACE_HE: case P_ADD_CELL:
       return "C11";
     case P_SWAP: return "C17";
-    case P_GC: return "C04";
+    case P_GC: case P_STATUS_GC: return "C04";
     default: return "C02";
     }
   }
@@ -167,10 +192,11 @@ struct Interp {
     cur_annot += p.render;
     for (auto &s : suts) exec_on(*s, p);
     apply_logical(p);
+    for (auto &s : suts) post_exec(*s, p);
     if (!fail.empty()) return false;
     for (auto &s : suts) {
       std::string m = verify(*s);
-      if (!m.empty()) { set_fail(owner_of(p.t), "[" + s->name + "] after " + p.render + ": " + m); return false; }
+      if (!m.empty()) { set_fail(owner_for(*s, owner_of(p)), "[" + s->name + "] after " + p.render + ": " + m); return false; }
     }
     if (on_step && !on_step(p)) return false;
     return fail.empty();
@@ -180,7 +206,7 @@ struct Interp {
     if (got != exp) {
       std::ostringstream o;
       o << "[" << s.name << "] " << p.render << ": " << what << " returned handle " << got << ", expected " << exp;
-      set_fail("C11", o.str());
+      set_fail(owner_for(s, "C11"), o.str());
     }
   }
 
@@ -311,6 +337,69 @@ struct Interp {
       s.deferred = p.flag;
       break;
     case P_EN_FAST: m.enable_fast_deletion(p.flag); s.fast = p.flag; break;
+    case P_STATUS_MARK: {
+      StatusAttrib &sa = s.st();
+      switch (p.kind) {
+      case KV: sa[s.vh(p.u)].set_deleted(true); break;
+      case KE: sa[s.eh(p.u)].set_deleted(true); break;
+      case KF: sa[s.fh(p.u)].set_deleted(true); break;
+      default: sa[s.ch(p.u)].set_deleted(true); break;
+      }
+      break;
+    }
+    case P_STATUS_GC: {
+      StatusAttrib &sa = s.st();
+      s.res_v.clear(); s.res_he.clear(); s.res_hf.clear(); s.res_c.clear();
+      for (int u : p.tr_v) s.res_v.push_back(u < 0 ? VertexHandle(-1) : s.vh(u));
+      for (auto h : p.tr_he) s.res_he.push_back(h.e < 0 ? HalfEdgeHandle(-1) : s.heh(h));
+      for (auto h : p.tr_hf) s.res_hf.push_back(h.f < 0 ? HalfFaceHandle(-1) : s.hfh(h));
+      for (int u : p.tr_c) s.res_c.push_back(u < 0 ? CellHandle(-1) : s.ch(u));
+      if (p.n == 0) sa.garbage_collection(p.flag);
+      else {
+        std::vector<VertexHandle *> pv;
+        std::vector<HalfEdgeHandle *> phe;
+        std::vector<HalfFaceHandle *> phf;
+        std::vector<CellHandle *> pc;
+        for (auto &h : s.res_v) pv.push_back(&h);
+        for (auto &h : s.res_he) phe.push_back(&h);
+        for (auto &h : s.res_hf) phf.push_back(&h);
+        for (auto &h : s.res_c) pc.push_back(&h);
+        sa.garbage_collection(pv, phe, phf, pc, p.flag);
+      }
+      break;
+    }
+    }
+  }
+
+  // layout / expectation updates that need the logical state *after* the primitive
+  void post_exec(Sut &s, const Prim &p) {
+    if (p.t != P_STATUS_GC) return;
+    gc_layout(s, L);
+    if (p.flag) { s.vbu = s.ebu = s.fbu = true; }
+    if (p.n == 0) return;
+    auto chk = [&](const char *what, size_t i, int got, int exp) {
+      if (got != exp) {
+        std::ostringstream o;
+        o << "[" << s.name << "] " << p.render << ": tracked " << what << " #" << i << " is " << got << " afterwards, expected " << exp
+          << (exp < 0 ? " (entity removed)" : "");
+        set_fail(owner_for(s, "C04"), o.str());
+      }
+    };
+    for (size_t i = 0; i < p.tr_v.size(); ++i) {
+      int u = p.tr_v[i];
+      chk("vertex handle", i, s.res_v[i].idx(), (u < 0 || !L.alive(KV, u)) ? -1 : s.lay.slot(KV, u));
+    }
+    for (size_t i = 0; i < p.tr_he.size(); ++i) {
+      auto h = p.tr_he[i];
+      chk("halfedge handle", i, s.res_he[i].idx(), (h.e < 0 || !L.alive(KE, h.e)) ? -1 : 2 * s.lay.slot(KE, h.e) + h.s);
+    }
+    for (size_t i = 0; i < p.tr_hf.size(); ++i) {
+      auto h = p.tr_hf[i];
+      chk("halfface handle", i, s.res_hf[i].idx(), (h.f < 0 || !L.alive(KF, h.f)) ? -1 : 2 * s.lay.slot(KF, h.f) + h.s);
+    }
+    for (size_t i = 0; i < p.tr_c.size(); ++i) {
+      int u = p.tr_c[i];
+      chk("cell handle", i, s.res_c[i].idx(), (u < 0 || !L.alive(KC, u)) ? -1 : s.lay.slot(KC, u));
     }
   }
 
@@ -346,8 +435,57 @@ struct Interp {
       if (p.kind == KF) L.F[(size_t)p.u].alive = false;
       if (p.kind == KC) L.C[(size_t)p.u].alive = false;
       break;
-    case P_CLEAR: L.clear(); pos.clear(); break;
+    case P_CLEAR: L.clear(); pos.clear(); for (auto &m : marks) m.clear(); break;
+    case P_STATUS_MARK: marks[p.kind].insert(p.u); break;
+    case P_STATUS_GC:
+      for (int c : p.victims[KC]) L.C[(size_t)c].alive = false;
+      for (int f : p.victims[KF]) L.F[(size_t)f].alive = false;
+      for (int e : p.victims[KE]) L.E[(size_t)e].alive = false;
+      for (int v : p.victims[KV]) { L.V[(size_t)v] = 0; pos.erase(v); }
+      for (auto &m : marks) m.clear();
+      break;
     default: break;
+    }
+    // marks on entities that died otherwise are meaningless
+    for (int k = 0; k < 4; ++k)
+      for (auto it = marks[k].begin(); it != marks[k].end();) it = L.alive(k, *it) ? std::next(it) : marks[k].erase(it);
+  }
+
+  // victims of StatusAttrib::garbage_collection: closure of all marks, then (optionally) everything bounding no cell
+  void status_gc_victims(bool manifold, std::vector<int> (&vict)[4]) const {
+    Logical T = L;
+    auto kill = [&](int kind, int u) {
+      std::vector<int> es, fs, cs;
+      T.closure(kind, u, es, fs, cs);
+      for (int c : cs) T.C[(size_t)c].alive = false;
+      for (int f : fs) T.F[(size_t)f].alive = false;
+      for (int e : es) T.E[(size_t)e].alive = false;
+      if (kind == KV) T.V[(size_t)u] = 0;
+      if (kind == KE) T.E[(size_t)u].alive = false;
+      if (kind == KF) T.F[(size_t)u].alive = false;
+      if (kind == KC) T.C[(size_t)u].alive = false;
+    };
+    for (int k = 0; k < 4; ++k)
+      for (int u : marks[k]) if (T.alive(k, u)) kill(k, u);
+    if (manifold) {
+      for (size_t f = 0; f < T.F.size(); ++f)
+        if (T.F[f].alive && T.hf_free(HFu{(int)f, 0}) && T.hf_free(HFu{(int)f, 1})) kill(KF, (int)f);
+      for (size_t e = 0; e < T.E.size(); ++e) {
+        if (!T.E[e].alive) continue;
+        bool used = false;
+        for (size_t f = 0; f < T.F.size() && !used; ++f) used = T.F[f].alive && T.face_has_edge((int)f, (int)e);
+        if (!used) kill(KE, (int)e);
+      }
+      for (size_t v = 0; v < T.V.size(); ++v) {
+        if (!T.V[v]) continue;
+        bool used = false;
+        for (size_t e = 0; e < T.E.size() && !used; ++e) used = T.E[e].alive && T.edge_has_vertex((int)e, (int)v);
+        if (!used) kill(KV, (int)v);
+      }
+    }
+    for (int k = 0; k < 4; ++k) {
+      vict[k].clear();
+      for (size_t u = 0; u < L.count(k); ++u) if (L.alive(k, (int)u) && !T.alive(k, (int)u)) vict[k].push_back((int)u);
     }
   }
 
@@ -685,6 +823,46 @@ struct Interp {
     case O_EN_FBU: return prim_simple(P_EN_FBU, a[0] & 1, "enable_face_bottom_up_incidences");
     case O_EN_DEFERRED: return prim_simple(P_EN_DEFERRED, a[0] & 1, "enable_deferred_deletion");
     case O_EN_FAST: return prim_simple(P_EN_FAST, a[0] & 1, "enable_fast_deletion");
+    case O_STATUS_MARK: {
+      int kind = a[0] % 4;
+      int u = pick(kind, a[1]);
+      if (u < 0) { count("skip:no_entity"); return true; }
+      Prim p; p.t = P_STATUS_MARK; p.kind = kind; p.u = u;
+      static const char *pf[] = {"v", "e", "f", "c"};
+      p.render = std::string("status[") + pf[kind] + std::to_string(u) + "].set_deleted(true)";
+      return step(p);
+    }
+    case O_STATUS_GC: {
+      Prim p; p.t = P_STATUS_GC; p.flag = (a[0] % 3 == 0); p.n = (a[1] % 4 != 0) ? 1 : 0;
+      status_gc_victims(p.flag, p.victims);
+      std::ostringstream o;
+      o << "StatusAttrib::garbage_collection(" << (p.n ? "track" : "") << (p.flag ? ",preserveManifoldness" : "") << ") victims v" << vs(p.victims[KV])
+        << " e" << vs(p.victims[KE]) << " f" << vs(p.victims[KF]) << " c" << vs(p.victims[KC]);
+      if (p.n) {
+        // handles handed in for tracking: any slot (live or pending), sometimes the invalid handle
+        const Layout &lay = suts[0]->lay;
+        auto some = [&](int kind, int seed, int cnt) {
+          std::vector<int> r;
+          const auto &u = lay.uid_at[kind];
+          for (int i = 0; i < cnt; ++i) {
+            if ((seed + i) % 9 == 8 || u.empty()) r.push_back(-1);
+            else r.push_back(u[(size_t)(seed * 7 + i * 13) % u.size()]);
+          }
+          return r;
+        };
+        p.tr_v = some(KV, a[2], 1 + a[2] % 4);
+        p.tr_c = some(KC, a[3], a[3] % 4);
+        for (int u : some(KE, a[4], a[4] % 4)) p.tr_he.push_back(HEu{u, (a[4] / 4) & 1});
+        for (int u : some(KF, a[2] + a[3], (a[2] + a[3]) % 4)) p.tr_hf.push_back(HFu{u, (a[3] / 4) & 1});
+        o << " track v" << vs(p.tr_v) << " c" << vs(p.tr_c) << " he[";
+        for (auto h : p.tr_he) o << " e" << h.e << (h.s ? "'" : "");
+        o << "] hf[";
+        for (auto h : p.tr_hf) o << " f" << h.f << (h.s ? "'" : "");
+        o << "]";
+      }
+      p.render = o.str();
+      return step(p);
+    }
     default: return true;  // handled by the target (property ops, queries)
     }
   }
